@@ -70,4 +70,6 @@ def run(model, tier):
                 res.sample({'solver': cname, 'file': w[0], 'function': w[1], 'construct': node.src[:120],
                             'constraint': what, 'lhs': S.show(a), 'rhs': S.show(b2)}, limit=40)
     res.extra['per_class'] = per_class
+    from . import c08_ehep
+    c08_ehep.boundary_tests(model, res)      # EHEP: the region-boundary test compares dimensionless distances
     return res
